@@ -92,6 +92,9 @@ func (c *corpus) query(r *zsimrt.Rand) string {
 	if len(c.bigQ) > 0 && r.Intn(50) == 0 {
 		return c.bigQ[r.Intn(len(c.bigQ))]
 	}
+	if r.Intn(10) == 0 {
+		return mutateQuery(r, c.all[r.Intn(len(c.all))], c)
+	}
 	if r.Intn(10) < 3 {
 		return genQuery(r, 0)
 	}
@@ -125,6 +128,48 @@ func (c *corpus) jsonDoc(r *zsimrt.Rand) string {
 		return c.bigDoc[r.Intn(len(c.bigDoc))]
 	}
 	return c.docs[r.Intn(len(c.docs))]
+}
+
+var mutTokens = []string{"AND", "OR", "NOT", "TO", "(", ")", "[", "]", "{", "}", ":", "+", "-", "~", "^", "*", "?", "\"", "'", "/", "=", ">", "<", "5", "x"}
+
+// mutateQuery applies 1-3 token-level edits to a corpus query: duplicate, delete, swap or
+// insert a token, or splice in a piece of another query. Most results are odd but lexable;
+// many do not parse — a rejected input is a result like any other.
+func mutateQuery(r *zsimrt.Rand, q string, c *corpus) string {
+	toks := strings.Fields(q)
+	if len(toks) == 0 {
+		return q
+	}
+	for n := 1 + r.Intn(3); n > 0; n-- {
+		i := r.Intn(len(toks))
+		switch r.Intn(6) {
+		case 0: // duplicate
+			toks = append(toks[:i+1], toks[i:]...)
+		case 1: // delete
+			if len(toks) > 1 {
+				toks = append(toks[:i], toks[i+1:]...)
+			}
+		case 2: // swap with neighbour
+			if i+1 < len(toks) {
+				toks[i], toks[i+1] = toks[i+1], toks[i]
+			}
+		case 3: // insert an operator / bracket / stray character
+			t := mutTokens[r.Intn(len(mutTokens))]
+			toks = append(toks[:i], append([]string{t}, toks[i:]...)...)
+		case 4: // glue a stray character onto a token
+			toks[i] = toks[i] + mutTokens[r.Intn(len(mutTokens))]
+		default: // splice in the tail of another query
+			o := strings.Fields(c.all[r.Intn(len(c.all))])
+			if len(o) > 0 {
+				k := r.Intn(len(o))
+				toks = append(toks[:i], append(append([]string{}, o[k:]...), toks[i:]...)...)
+			}
+		}
+		if len(toks) > 60 {
+			toks = toks[:60]
+		}
+	}
+	return strings.Join(toks, " ")
 }
 
 var (
